@@ -10,8 +10,8 @@
                      the log in any order / grouping / multiplicity, recoveries, timer
                      firings, startup), each carrying the server's visible horizon
      accounted s e tr := Deliver s (eid e) is in tr, or TooLong s is in tr
-     moof m = false  no getDifference recursion ran out of its fuel |log|+2 (checked on every
-                     correspondence case; slices always make progress)
+     (the difference recursion of the model carries a fuel of |log|+2 fetches; it is proved
+      sufficient: never_out_of_fuel, so the statements below are unconditional)
 
    Full-strength statement (all finite logs, all delivery histories, differences whole,
    sliced or too long): after a difference fetch that completes, every log entry up to the
@@ -23,18 +23,21 @@ Open Scope Z_scope.
 
 Theorem C02_no_loss_common : forall c log ops vis,
   wf_log log ->
-  let m := mrun c log (ops ++ [MTooLong vis]) in
-  moof m = false ->
-  forall s e, (s = 0 \/ s = 1) -> In e log -> eseq e = s -> base c s < epos e <= vis s -> accounted s e (mtr m).
-Proof. exact no_loss_common. Qed.
+  forall s e, (s = 0 \/ s = 1) -> In e log -> eseq e = s -> base c s < epos e <= vis s ->
+              accounted s e (mtr (mrun c log (ops ++ [MTooLong vis]))).
+Proof. exact no_loss_common_total. Qed.
 Print Assumptions C02_no_loss_common.
 
 Theorem C02_no_loss_channel : forall c log ops vis s,
   wf_log log -> 2 <= s < nseq c ->
-  let m := mrun c log (ops ++ [MChanTooLong vis s]) in
-  moof m = false ->
-  forall e, In e log -> eseq e = s -> base c s < epos e <= vis s -> accounted s e (mtr m).
-Proof. exact no_loss_channel. Qed.
+  forall e, In e log -> eseq e = s -> base c s < epos e <= vis s ->
+            accounted s e (mtr (mrun c log (ops ++ [MChanTooLong vis s]))).
+Proof. exact no_loss_channel_total. Qed.
+
+(* the recursion getDifference -> slice -> getDifference ... always ends within |log|+2 fetches *)
+Theorem C02_recovery_terminates : forall c log ops, moof (mrun c log ops) = false.
+Proof. exact never_out_of_fuel. Qed.
+Print Assumptions C02_recovery_terminates.
 Print Assumptions C02_no_loss_channel.
 
 (* At every moment, recovery or not: whatever a local position has moved past (by pushed
